@@ -73,6 +73,16 @@ def run_template(n_blocks=1, n_imports=0, env_fields=None, gen_fields=None, conf
     I.specs["Node.find_all"] = find_all_spec
     I.specs[I.spec_key(N.EvalContext)] = evalctx_spec
     I.specs["_NameMap.__setitem__"] = lambda I_, s, args, kwargs, node: [(s, None)]
+
+    import unicodedata
+
+    def normalize_spec(I_, s, args, kwargs, node):
+        # block_func_name: unicodedata.normalize on the (concrete) block names of this run - a pure library function
+        if all(isinstance(a, str) for a in args):
+            return [(s, unicodedata.normalize(*args))]
+        raise Unsupported("unicodedata.normalize of a symbolic name", node)
+
+    I.specs[("fn", id(unicodedata.normalize))] = normalize_spec
     if configure:
         configure(I)
     fn = extract.resolve("jinja2.compiler:CodeGenerator.visit_Template")
